@@ -558,6 +558,13 @@ func propC15(w *World, r *Report) {
 		}
 	}
 	r.Floor("A6", 1)
+	// with throttling active the motion sink is the ThrottledRecorder: it must hand the trigger's background
+	// and threshold to the file recorder, also when it re-opens a file in the middle of a trigger
+	if tr, err := getThrottleRuns(w); err == nil {
+		checkThrottlePassThrough(w, r, tr, "A6")
+	} else {
+		r.Unknown("A6", "throttle pass-through", "-", err.Error())
+	}
 }
 
 func minInt(a, b int) int {
